@@ -376,33 +376,23 @@ example : Spec.Microdata.validDoc (asc "http://ex.org/dir/page.html") exampleGra
 
 example : Nested.NestedFrag exampleCand := ⟨by decide, by decide, by decide⟩
 
-/-- Non-vacuity of `mdd_refines_denote_itemref_partial`: two items share the detached block `addr` (one of them names
-    it twice and also names a missing id); the block comes after the first item and before the second; the second
-    item is nested in a third that has its own property. -/
+/-- Non-vacuity of `mdd_refines_denote_itemref_partial`: two items share the detached block `t` (the first names it
+    twice and also names a missing id); the block sits between them; the second item is nested in a third. -/
 def exampleRef : Spec.Html.Tree :=
-  Spec.Microdata.docOf [
-    .elem .div { itemscope := true, itemref := some (asc "addr nope addr"), itemid := some (asc "http://ex.org/a") } [
-      .elem .span { itemprop := some (asc "name") } [.text (asc "A")]],
-    .elem .div { id := some (asc "addr") } [
-      .text (asc "block "),
-      .elem .span { itemprop := some (asc "street") } [.text (asc "Main St")],
-      .elem .link { itemprop := some (asc "map"), href := some (asc "http://maps.example/m") } []],
-    .elem .div { itemscope := true } [
-      .elem .div { itemprop := some (asc "branch"), itemscope := true, itemref := some (asc "addr") } [],
-      .elem .meta { itemprop := some (asc "kind"), content := some (asc "hq") } []]]
+  .elem .body {} [
+    .elem .div { itemscope := true, itemref := some (asc "t x t") } [.elem .span { itemprop := some (asc "n") } [.text (asc "A")]],
+    .elem .div { id := some (asc "t") } [.elem .span { itemprop := some (asc "s") } [.text (asc "M")]],
+    .elem .div { itemscope := true } [.elem .div { itemprop := some (asc "b"), itemscope := true, itemref := some (asc "t") } []]]
 
 example : Ref.RefFrag exampleRef := ⟨by decide, by decide, by decide, by decide⟩
 
+/-- … in decoder order: the referenced properties (twice) before the item's own child; blank nodes 0, 1, 2. -/
 example : decode (specEnv [] [] []) (ofSpecDoc exampleRef) =
-    .ok [⟨.iri (asc "http://ex.org/a"), asc "street", .lit (asc "Main St") xsdString none⟩,
-         ⟨.iri (asc "http://ex.org/a"), asc "map", .iri (asc "http://maps.example/m")⟩,
-         ⟨.iri (asc "http://ex.org/a"), asc "street", .lit (asc "Main St") xsdString none⟩,
-         ⟨.iri (asc "http://ex.org/a"), asc "map", .iri (asc "http://maps.example/m")⟩,
-         ⟨.iri (asc "http://ex.org/a"), asc "name", .lit (asc "A") xsdString none⟩,
-         ⟨.bnode 0, asc "branch", .bnode 1⟩,
-         ⟨.bnode 1, asc "street", .lit (asc "Main St") xsdString none⟩,
-         ⟨.bnode 1, asc "map", .iri (asc "http://maps.example/m")⟩,
-         ⟨.bnode 0, asc "kind", .lit (asc "hq") xsdString none⟩] [] := by
+    .ok [⟨.bnode 0, asc "s", .lit (asc "M") xsdString none⟩,
+         ⟨.bnode 0, asc "s", .lit (asc "M") xsdString none⟩,
+         ⟨.bnode 0, asc "n", .lit (asc "A") xsdString none⟩,
+         ⟨.bnode 1, asc "b", .bnode 2⟩,
+         ⟨.bnode 2, asc "s", .lit (asc "M") xsdString none⟩] [] := by
   decide
 
 end RdfModel.C11Md
